@@ -287,6 +287,17 @@ fn space_prolog() -> Vec<String> {
             }
         }
     }
+    // DOCTYPE with an internal subset: references to its entities in the root start tag, in child attributes
+    // and in text are passed through as written (same infoset for a reader which knows the DTD)
+    for dt in ["<!DOCTYPE svg [<!ENTITY w \"10\">]>", "<!DOCTYPE svg [\n  <!ENTITY w \"10\">\n  <!ENTITY ns_svg 'http://example.com/ns'>\n]>\n"] {
+        for (attrs, body) in [(" width=\"&w;\"", "<rect width=\"5\" height=\"5\"/>"), ("", "<rect width=\"&w;\" a=\"x&w;y\"/>"), (" viewBox=\"0 0 &w; &w;\"", "<text>a &w; b &amp; c</text>"), (" xmlns:x=\"&ns_svg;\"", "<x:y/>")] {
+            if attrs.contains("ns_svg") && !dt.contains("ns_svg") {
+                continue;
+            }
+            v.push(format!("{dt}{}", wrap(attrs, body)));
+            v.push(format!("<?xml version=\"1.0\"?>\n{dt}{}", wrap(attrs, body)));
+        }
+    }
     // line-ending / whitespace variants inside the root
     for b in ["\r\n  <rect/>\r\n", "\t<rect/>\t\n", "  <rect/>  ", "\n\n\n<rect/>\n\n\n", "<rect\n   a=\"1\"\n   b='2'\n/>"] {
         v.push(wrap("", b));
